@@ -75,6 +75,13 @@ def lvl(e):
     return 9
 
 
+def long_coef(rng):
+    """29..40 significant digits, no trailing-zero shortcut: the last digits carry the information"""
+    n = rng.randint(29, 40)
+    digits = [rng.randint(1, 9)] + [rng.randint(0, 9) for _ in range(n - 2)] + [rng.randint(1, 9)]
+    return int(''.join(map(str, digits)))
+
+
 def gen_lit(rng):
     r = rng.random()
     if r < 0.1:
@@ -82,8 +89,12 @@ def gen_lit(rng):
     if r < 0.2:
         return ('bool', rng.random() < 0.5)
     if r < 0.45:
+        if rng.random() < 0.25:
+            return ('int', long_coef(rng))
         return ('int', rng.choice([0, 1, 2, 7, 10, 42, 2020, 123456789, 10 ** 20 + 3]))
     if r < 0.65:
+        if rng.random() < 0.35:      # more significant digits than the default decimal context keeps (28)
+            return ('dec', long_coef(rng), rng.choice([0, 1, 2, 17, 28, 29, 33, 40, 45]))
         return ('dec', rng.choice([0, 5, 15, 150, 1005, 314159]), rng.choice([0, 1, 2, 3, 7]))
     if r < 0.8:
         y = rng.choice([1, 999, 1970, 2000, 2020, 2024, 9999])
@@ -640,7 +651,7 @@ def tok_text(t, rng, canonical=False):
     if tag == 1:
         return recase(''.join(map(chr, t[1])), rng, mode)
     if tag == 2:
-        return ('' if canonical or rng.random() < 0.8 else '0' * rng.randint(1, 3)) + str(t[1])
+        return ('' if canonical or rng.random() < 0.8 else '0' * rng.choice([1, 2, 3, 30])) + str(t[1])
     if tag == 3:
         _, lead, m, sc = t
         ds = str(m).rjust(sc + 1, '0')
@@ -648,7 +659,7 @@ def tok_text(t, rng, canonical=False):
         if not canonical and sc and int(ip) == 0 and rng.random() < 0.4:
             ip = ''
         elif not canonical and rng.random() < 0.15:
-            ip = '0' + ip
+            ip = '0' * rng.choice([1, 1, 2, 31]) + ip
         return ip + '.' + fp
     if tag == 4:
         return '%04d-%02d-%02d' % (t[1], t[2], t[3])
@@ -843,6 +854,29 @@ def parents():
         ps.append((f'{op}.l', lambda c, op=op: ('cmp', op, c, leaf(1))))
         ps.append((f'{op}.r', lambda c, op=op: ('cmp', op, leaf(0), c)))
     return ps
+
+
+def long_literal_cases():
+    """decimal and integer literals with 29..40 significant digits (beyond the 28 of the default decimal context), long
+    fractions, pairs that differ only in the last digit: in targets, WHERE, lists, under unary minus, in GROUP BY /
+    ORDER BY / HAVING / function arguments; compared digit for digit through the AST serialisation."""
+    one = 10 ** 29
+    pairs = [(one + 1, 29), (one + 2, 29), (10 ** 39 + 7, 0), (10 ** 39 + 8, 0), (int('9' * 29), 28), (int('9' * 30), 1),
+             (int('123456789' * 4 + '1234'), 40), (int('123456789' * 4 + '1235'), 40), (5, 45), (10 ** 28 + 1, 45)]
+    lits = [('dec', m, sc) for m, sc in pairs] + [('int', 10 ** 29 + 1), ('int', 10 ** 29 + 2), ('int', int('9' * 40))]
+    out = []
+    sel = lambda t=None, f=None, w=None, g=None, o=(): ('select', False, t or [(leaf(7), None)], f, w, g, list(o), None, None)
+    for i, l in enumerate(lits):
+        c = ('const', l)
+        other = ('const', lits[(i + 1) % len(lits)])
+        out.append((f'long:target:{i}', ('select', sel(t=[(c, None), (('neg', c), 'n')]))))
+        out.append((f'long:where:{i}', ('select', sel(w=('cmp', 'Eq', c, other)))))
+        out.append((f'long:list:{i}', ('select', sel(w=('cmp', 'In', leaf(0), ('list', [l, lits[(i + 1) % len(lits)], ('null',)]))))))
+        out.append((f'long:arith:{i}', ('select', sel(t=[(('arith', 'Sub', ('neg', c), ('arith', 'Mul', other, c)), None)],
+                                                      g=([('expr', ('paren', c))], ('cmp', 'Lt', c, other)),
+                                                      o=[(('expr', ('func', 'abs', [c])), True)]))))
+        out.append((f'long:balances:{i}', ('balances', None, ('from', ('between', leaf(0), c, other), None, None, False), c)))
+    return out
 
 
 def matrix():
@@ -1185,6 +1219,7 @@ def run(tier, rng):
     # (iii) printed stream
     cases = [('matrix:' + n, s) for n, s in matrix()]
     n_matrix = len(cases)
+    cases += long_literal_cases()
     rcases = [(f'random:{i}', gen_stmt(rng, rng.choice(depths))) for i in range(n_rand)]
     hist, dh = {}, {}
     for _, s in rcases:
@@ -1259,7 +1294,7 @@ def run(tier, rng):
                 'non-trivial = distinct text',
         'samples': [texts[i] for i in range(0, len(texts), max(1, len(texts) // 6))][:6],
         'traces_validated_against_impl': len(texts) + len(muts),
-        'printed_texts': len(texts), 'matrix_trees': n_matrix, 'random_trees': n_rand,
+        'printed_texts': len(texts), 'matrix_trees': n_matrix, 'long_literal_trees': len(long_literal_cases()), 'random_trees': n_rand,
         'mutated_texts': len(muts), 'mutated_accepted_by_impl': accepted,
         'node_histogram': dict(sorted(hist.items(), key=lambda kv: -kv[1])),
         'depth_histogram': dict(sorted(dh.items())),
